@@ -235,45 +235,30 @@ theorem dispatch_sound_partial (es : List Endpoint) (g : Globals) (pt : PTree) (
     (hd : dispatchFirst pt g m u = some first) :
     dispOk es g m u first = true := by
   have hinv := build_inv hbuild
-  have hmem : ∃ r ∈ selRemedies pt g m u, r.name = first := by
-    unfold dispatchFirst at hd
-    cases hh : ((selRemedies pt g m u).filter (·.type == 7)).head? with
-    | none => rw [hh] at hd; simp at hd
-    | some r =>
-      rw [hh] at hd
-      simp only [Option.map_some, Option.some.injEq] at hd
-      have := List.mem_of_mem_head? hh
-      exact ⟨r, (List.mem_filter.mp this).1, hd⟩
-  obtain ⟨r, hr, hname⟩ := hmem
-  unfold dispOk
-  rw [Bool.or_eq_true]
-  unfold selRemedies at hr
-  rcases List.mem_append.mp hr with h | h
-  · right
-    cases hp : (select pt m u).policy with
-    | none => simp [hp] at h
-    | some pol =>
-      obtain ⟨q, i, e, _, hq, hm, hpol, _, _, _, _⟩ := select_char hinv hp
-      simp only [hp, hpol, Policy.remedies, List.mem_filter, List.mem_flatMap] at h
-      obtain ⟨⟨x, hx, hrx⟩, hen⟩ := h
-      obtain ⟨hx1, hx2, hx3⟩ := mem_group.mp hx
-      rw [List.any_eq_true]
-      refine ⟨x, hx1, ?_⟩
-      have hmatch : «matches» x.parts u = true := by
-        rw [hx3]
-        apply matches_of_lax q u hm
-        have hb := hF13c
-        unfold boundaryMix at hb
-        rw [List.any_eq_false] at hb
-        have := hb x hx1
-        rw [hx3] at this
-        simpa using this
-      simp only [hx2, hmatch, beq_self_eq_true, Bool.true_and, List.any_eq_true]
-      exact ⟨r, hrx, by simp [hen, hname]⟩
-  · left
-    simp only [List.mem_filter] at h
-    rw [List.any_eq_true]
-    exact ⟨r, h.1, by simp [h.2, hname]⟩
+  unfold dispatchFirst at hd
+  cases hh : ((selRemedies pt g m u).filter (·.type == 7)).head? with
+  | none => rw [hh] at hd; simp at hd
+  | some r =>
+    rw [hh] at hd
+    simp only [Option.map_some, Option.some.injEq] at hd
+    have := List.mem_of_mem_head? hh
+    rw [← hd]
+    exact selRemedies_entitled hinv hF13c r (List.mem_filter.mp this).1
+
+/-- (D, credentials) Outside F13c: on a forwarded request the credentials that leave the engine belong only
+    to authentication remedies that are enabled global ones or enabled remedies of an endpoint declared for the
+    request's METHOD whose pattern matches the URL — never to the remedy another method of the same pattern
+    declares. -/
+theorem credentials_sound_partial (es : List Endpoint) (g : Globals) (pt : PTree) (m : String) (u : List Part)
+    (hbuild : build es = .ok pt) (hF13c : boundaryMix es u = false) :
+    authOk es g m u (authKeys pt g m u) = true := by
+  have hinv := build_inv hbuild
+  unfold authOk authKeys
+  rw [List.all_eq_true]
+  intro k hk
+  obtain ⟨r, hr, hname⟩ := List.mem_map.mp hk
+  rw [← hname]
+  exact selRemedies_entitled hinv hF13c r (List.mem_filter.mp hr).1
 
 /-- (D, response leg) Outside F13c: an early answer is run through the response leg under the policy the
     request's (method, URL) selects — the retry remedies that act on it are those of the applied endpoint group
@@ -298,6 +283,16 @@ theorem early_response_leg_partial (es : List Endpoint) (g : Globals) (pt : PTre
     have hpolv : (observe pt g m u).pol = some pol.url := by simp [observe, hp]
     rw [hpolv] at this ⊢
     exact this
+
+/-- non-vacuity of (D, credentials): GET and POST of one pattern carry authentication remedies on different
+    accounts; each method gets its own. -/
+example :
+    (match build [{ epUsersId with remedies := [⟨"ro", 9, true⟩] },
+                  { epUsersId with method := "POST", remedies := [⟨"rw", 9, true⟩] }] with
+     | .ok pt => authKeys pt noGlobals "GET" urlUsers123 == ["ro"] && authKeys pt noGlobals "POST" urlUsers123 == ["rw"] &&
+                 authKeys pt noGlobals "HEAD" urlUsers123 == []
+     | .error _ => false) = true := by
+  decide
 
 /-- non-vacuity of (D): the dispatcher answers with A, and with a retry remedy on the same endpoint the early
     answer is modified on the response leg. -/
